@@ -287,7 +287,10 @@ func exploreScenario(c *ev.Ctx, sc *Scenario, maxBound int) exploreStats {
 		if !noPrune {
 			e.visited = map[uint64]int{}
 		}
-		defer func(e *explorer) { c.Add("executions_pruned_at_a_visited_state", e.pruned); c.Add("distinct_states", int64(len(e.visited))) }(e)
+		defer func(e *explorer) {
+			c.Add("executions_pruned_at_a_visited_state", e.pruned)
+			c.Add("distinct_states", int64(len(e.visited)))
+		}(e)
 		if b < maxBound {
 			// lower bounds are re-explored by the next iteration; run them only to find the
 			// counterexample with the fewest preemptions first
